@@ -167,6 +167,10 @@ def _show_factor(f) -> str:
     return f[0] + ("^T" if f[1] else "")
 
 
+class Raised(Unsupported):
+    """the evaluated path ends in a raise statement"""
+
+
 class TermEval:
     def __init__(self, idx: ProgramIndex, base: ClassInfo, cls: ClassInfo):
         self.idx = idx
@@ -181,6 +185,13 @@ class TermEval:
     def block(self, body, env, assume, fn):
         for st in body:
             if isinstance(st, ast.Expr) and isinstance(st.value, ast.Constant):
+                continue
+            if isinstance(st, ast.Raise):
+                raise Raised(short(st, 60))
+            if isinstance(st, ast.Expr) and isinstance(st.value, ast.Call) and isinstance(st.value.func, ast.Attribute) \
+                    and isinstance(st.value.func.value, ast.Name) and st.value.func.value.id == "self":
+                # self._check_args(...): a helper evaluated for its effect - it raises (propagates) or returns
+                self.ev(st.value, env, assume, fn)
                 continue
             if isinstance(st, ast.Return):
                 return self.ev(st.value, env, assume, fn)
@@ -892,6 +903,8 @@ def check_solve_triangular(idx, rep: Report, base: ClassInfo):
                       "upper != self.upper": False, "upper == self.upper": True, "#vectors": symmetric}
             try:
                 got = te.method(fn, env, assume)
+            except Raised:
+                got = None
             except Unsupported as e:
                 rep.note(f"{who} (left={left}): not evaluable by term rewriting ({e})")
                 continue
